@@ -16,6 +16,10 @@
 
 #include <array>
 #include <cmath>
+#ifdef BLOCH_VERIF
+#include <cstdlib>
+#include <fstream>
+#endif
 #include <random>
 #include <sstream>
 #include <stdexcept>
@@ -28,6 +32,43 @@ namespace bloch::runtime {
     static std::mt19937 rng{std::random_device{}()};
     // TODO(REFACTOR): inject RNG via a Strategy/adapter so simulator is
     // deterministic under test and replaceable by other random sources.
+
+#ifdef BLOCH_VERIF
+    std::vector<double>& VerifDraws::queue() {
+        static std::vector<double> q = [] {
+            std::vector<double> v;
+            if (const char* f = std::getenv("BLOCH_VERIF_DRAWS")) {
+                std::ifstream in(f);
+                double d;
+                while (in >> d) v.push_back(d);
+            }
+            return v;
+        }();
+        return q;
+    }
+    size_t& VerifDraws::pos() {
+        static size_t p = 0;
+        return p;
+    }
+    std::vector<VerifDraws::Rec>& VerifDraws::record() {
+        static std::vector<Rec> r;
+        return r;
+    }
+    double VerifDraws::next(double fallback) {
+        auto& q = queue();
+        if (pos() < q.size())
+            return q[pos()++];
+        return fallback;
+    }
+    void VerifDraws::note(char op, int qubit, double r, int outcome) {
+        record().push_back({op, qubit, r, outcome});
+        if (const char* f = std::getenv("BLOCH_VERIF_DRAWLOG")) {
+            std::ofstream out(f, std::ios::app);
+            out.precision(17);
+            out << op << ' ' << qubit << ' ' << r << ' ' << outcome << "\n";
+        }
+    }
+#endif
 
     int QasmSimulator::allocateQubit() {
         // Grow the state by a factor of two, keeping existing amplitudes
@@ -173,6 +214,10 @@ namespace bloch::runtime {
         }
         std::uniform_real_distribution<double> dist(0.0, 1.0);
         double r = dist(rng);
+#ifdef BLOCH_VERIF
+        r = VerifDraws::next(r);
+        VerifDraws::note('r', q, r, r < p1 ? 1 : 0);
+#endif
         bool one = r < p1;
         double norm = std::sqrt(one ? p1 : 1 - p1);
         for (size_t i = 0; i < m_state.size(); ++i) {
@@ -196,6 +241,10 @@ namespace bloch::runtime {
                 p1 += std::norm(m_state[i]);
         std::uniform_real_distribution<double> dist(0.0, 1.0);
         double r = dist(rng);
+#ifdef BLOCH_VERIF
+        r = VerifDraws::next(r);
+        VerifDraws::note('m', q, r, r < p1 ? 1 : 0);
+#endif
         int res = r < p1 ? 1 : 0;
         double norm = std::sqrt(res ? p1 : 1 - p1);
         for (size_t i = 0; i < m_state.size(); ++i) {
